@@ -30,7 +30,7 @@ func init() {
 			StatesMean:  "distinct (program, seed, history) executions compared with their baseline; transitions = real Next calls",
 			Assumptions: []string{"3 fresh child processes stand for 'different processes'", "seeds outside the listed alphabet are not explored"},
 		},
-		QuickBudget: 70 * time.Second, ThoroughBudget: 12 * time.Minute, CrashIsViolation: true, Workers: 16,
+		QuickBudget: 180 * time.Second, ThoroughBudget: 12 * time.Minute, CrashIsViolation: true, Workers: 16,
 		Run: runC09,
 	})
 }
